@@ -1,12 +1,12 @@
 (* Extraction of the executable model. ExtrOcamlBasic only; N/Z/positive/nat stay inductive. *)
 From Coq Require Extraction ExtrOcamlBasic.
 From Base Require Import PyStr.
-From Model Require Import Wrap RxPort Tags LineWrap Frontmatter FsOps Cli Typography Ast Transforms Render Pipeline.
+From Model Require Import Wrap BlockStart RxPort Tags LineWrap Frontmatter FsOps Cli Typography Ast Transforms Render Pipeline.
 
 Extraction Language OCaml.
 Extraction "model.ml"
   split_ws strip collapse_ws splitlines
-  escape_word wrap_words wrap_ok wrap_ok_strict wrap_paragraph_lines
+  escape_word opens_block_word wrap_words wrap_ok wrap_ok_strict wrap_paragraph_lines
   rx_finditer
   escape_rx html_md_word_splitter normalize_adjacent_tags denormalize_adjacent_tags
   preprocess_tag_block_spacing fix_closing_tag_spacing fix_multiline_opening_tag_with_closing
